@@ -29,6 +29,10 @@ def gen_cases(rng, tier, corr, stats):
                         continue
                     pw, salt = rnd_bytes(rng, rng.choice([0, 1, 8, 40, 70])), rnd_bytes(rng, rng.choice([0, 8, 16, 33]))
                     corr.one("PB %s %s %s %d %d" % (kind, hx(pw), hx(salt), c, n)); stats["ops"]["PBKDF2-" + kind] += 1; stats["outlen"].append(n)
+        # block indices beyond one byte: the big-endian INT(i) of RFC 8018 must carry into the second byte
+        for n in (8160, 8161, 8251) + ((16500, 40000) if tier == "thorough" else ()):
+            pw, salt = rnd_bytes(rng, rng.choice([1, 8, 40])), rnd_bytes(rng, rng.choice([0, 8, 16]))
+            corr.one("PB xof %s %s %d %d" % (hx(pw), hx(salt), rng.choice([1, 2]), n)); stats["ops"]["PBKDF2-xof-many-blocks"] += 1; stats["outlen"].append(n)
         for v in ("kdf", "kdfa"):
             for n in (0, 1, 31, 32, 33, 64, 200):
                 for cu in (b"", b"c" * 7, b"c" * 8, b"c" * 9):
